@@ -51,8 +51,9 @@ def slices(tier, rng):
                      opts={'must_reach': ['ok', 'err']}, ctx={'k': k, 'ps': ps})
     sc4 = [0, 1, 2, 3, 4, 5, 7, 8]; sc8 = [6, 1, 2, 3, 4, 5, 8]
     out.append(mk('k2-nf2-ps4', 2, 4, 2, [0, 1, 2, 8, 5], [0] if tier == 'quick' else [0, 1]))
-    out.append(mk('k3-nf1-ps4', 3, 4, 1, sc4, [1] if tier == 'quick' else [0, 1]))
+    out.append(mk('k3-nf1-ps4', 3, 4, 1, [0, 1, 2, 4, 5, 8] if tier == 'quick' else sc4, [1] if tier == 'quick' else [0, 1]))
     out.append(mk('k2-nf1-ps8', 2, 8, 1, sc8, [0, 1, 2]))
+    out.append(mk('k2-nf1-enum-ps4', 2, 4, 1, [0, 3, 7, 5], [0]))
     if tier != 'quick':
         out.append(mk('k3-nf1-ps8', 3, 8, 1, sc8, [0, 2]))
         out.append(mk('k3-nf2-ps4', 3, 4, 2, [0, 1, 2, 5], [0]))
